@@ -435,6 +435,40 @@ def check_string_set_quantifiers(prog, r):
                             if m_:
                                 inner.add(m_.group(1))
         seen[arm] = (meth, "/".join(sorted(over)), "/".join(sorted(inner)))
+    # explicit-loop spelling: `for p in patterns { let mut hit = false; for s in strs { .. } if !hit { return false } } true`.
+    # The nesting order carries the meaning: under All the outer loop walks the patterns (parameter 2), the inner the values.
+    pn = {fv.local_name.get(1): "strs", fv.local_name.get(2): "patterns"}
+    lps = loops(fv)
+    if "All" not in seen and lps:
+        def loop_source(h, body):
+            for b in sorted(body):
+                t_ = fv.blocks[b]["t"]
+                if t_["t"] == "call" and (t_["f"].get("name") or "").endswith("Iterator::next"):
+                    vs = set(expr_vars(rend.operand(t_["args"][0], 14)))
+                    srcs = {pn[v] for v in vs if v in pn}
+                    if len(srcs) == 1:
+                        return next(iter(srcs))
+            return None
+        arm_of = {}
+        for h, body, backs in lps:
+            for g, l, hh in flat_guards(fv, h, brs):
+                if g[0] == "discr" and g[2] and g[2].endswith("MatchOption") and len(l) == 1:
+                    arm_of[h] = next(iter(l))
+        in_all = [(h, body) for h, body, backs in lps if arm_of.get(h) == "All"]
+        if len(in_all) >= 2:
+            outer = max(in_all, key=lambda x: len(x[1]))
+            inner = [x for x in in_all if x[0] != outer[0] and x[0] in outer[1]]
+            if inner:
+                o_src, i_src = loop_source(*outer), loop_source(inner[0][0], inner[0][1] - set())
+                # the outer loop's own `next` may sit in its body together with the inner's: take the one outside the inner body
+                for b in sorted(outer[1] - inner[0][1]):
+                    t_ = fv.blocks[b]["t"]
+                    if t_["t"] == "call" and (t_["f"].get("name") or "").endswith("Iterator::next"):
+                        vs = set(expr_vars(rend.operand(t_["args"][0], 14)))
+                        srcs = {pn[v] for v in vs if v in pn}
+                        if len(srcs) == 1:
+                            o_src = next(iter(srcs))
+                seen["All"] = ("all" if o_src == "patterns" else "all?", o_src or "", "any" if i_src == "strs" else "")
     want = {"All": ("all", "patterns", "any")}
     for arm, w in want.items():
         if arm not in seen:
